@@ -717,15 +717,17 @@ func c34Check(col *stat.Collector, rt stat.Fataler, plan c34Plan, run c34Run) (n
 	// apart by what the client did: at least `majority` of the keys its scripts set have not been sent a release
 	// script for that value when the call returns (monitors of the keys that count as acquired only release after the
 	// lock context has ended). A value with fewer such keys belongs to an attempt that had been given up.
-	setKeys := map[string]map[string]bool{} // value -> keys its set scripts took
-	delOrd := map[string]map[string]int64{} // value -> key -> order of the first release script for it
+	setKeys := map[string]map[string]int64{} // value -> key -> order of the first set script that took it
+	delOrd := map[string]map[string]int64{}  // value -> key -> order of the first release script for it
 	for _, s := range run.Scripts {
 		switch {
 		case s.Kind == "set" && s.OK:
 			if setKeys[s.Val] == nil {
-				setKeys[s.Val] = map[string]bool{}
+				setKeys[s.Val] = map[string]int64{}
 			}
-			setKeys[s.Val][s.Key] = true
+			if _, seen := setKeys[s.Val][s.Key]; !seen {
+				setKeys[s.Val][s.Key] = s.Ord
+			}
 		case s.Kind == "delkey":
 			if delOrd[s.Val] == nil {
 				delOrd[s.Val] = map[string]int64{}
@@ -737,7 +739,10 @@ func c34Check(col *stat.Collector, rt stat.Fataler, plan c34Plan, run c34Run) (n
 	}
 	givenUpBefore := func(val string, ord int64) bool {
 		kept := 0
-		for k := range setKeys[val] {
+		for k, taken := range setKeys[val] {
+			if taken > ord {
+				continue // taken after the call had returned (a key beyond the majority, in the background)
+			}
 			if d, released := delOrd[val][k]; !released || d > ord {
 				kept++
 			}
